@@ -81,21 +81,27 @@ fn jitter(r: &mut Rng) {
 struct Sentinel {
     i: u64,
     kind: AtomicU8, // 0 cancelled (dropped while pending), 1 finish, 2 panic
+    slow: u64,      // seeded part of the drop duration
 }
 impl Drop for Sentinel {
+    /// Dropping the state owned by the task takes time (20-50 ms); "ended" is logged when it is over.
+    /// A join() that resolves while this is still running (on another thread) is therefore seen
+    /// deterministically, not only in a microsecond window.
     fn drop(&mut self) {
         let kind = match self.kind.load(Ordering::SeqCst) {
             1 => "finish",
             2 => "panic",
             _ => "cancelled",
         };
+        std::thread::sleep(Duration::from_millis(20 + (self.i * 7 + self.slow) % 31));
         log(json!({"name": "ended", "i": self.i, "kind": kind}));
     }
 }
 
 /// The sentinel exists from the moment the future is handed to `spawn*`, also if it is never polled.
 fn body(i: u64, plan: Plan, token: CancellationToken, r: Rng) -> impl std::future::Future<Output = ()> + Send + 'static {
-    let s = Sentinel { i, kind: AtomicU8::new(0) };
+    let mut r = r;
+    let s = Sentinel { i, kind: AtomicU8::new(0), slow: r.below(31) };
     body_inner(s, plan, token, r)
 }
 
@@ -197,15 +203,25 @@ pub fn record(args: &Args) -> Summary {
                     }));
                 }
                 let mut jr = Rng::new(rseed ^ (i << 20));
-                joiners.push(tokio::spawn(async move {
-                    if jr.below(3) == 0 {
-                        tokio::task::yield_now().await;
-                    }
-                    handle.join().await;
-                    log(json!({"name": "join_ret", "i": i}));
-                    // "always resolves after that": a second join returns at once
-                    tokio::time::timeout(Duration::from_secs(10), handle.join()).await.is_ok()
-                }));
+                if jr.below(2) == 0 {
+                    // joiner on its own OS thread: certainly not the thread that drops the task
+                    joiners.push(tokio::task::spawn_blocking(move || {
+                        futures::executor::block_on(handle.join());
+                        log(json!({"name": "join_ret", "i": i}));
+                        futures::executor::block_on(handle.join()); // a second join returns at once (else the run's bound hits)
+                        true
+                    }));
+                } else {
+                    joiners.push(tokio::spawn(async move {
+                        if jr.below(3) == 0 {
+                            tokio::task::yield_now().await;
+                        }
+                        handle.join().await;
+                        log(json!({"name": "join_ret", "i": i}));
+                        // "always resolves after that": a second join returns at once
+                        tokio::time::timeout(Duration::from_secs(10), handle.join()).await.is_ok()
+                    }));
+                }
             }
             let all = async {
                 let mut again_ok = true;
@@ -219,6 +235,13 @@ pub fn record(args: &Args) -> Summary {
             };
             tokio::time::timeout(bound, all).await
         });
+        // every task's "ended" belongs to this run's log, also when its join returned too early
+        let t0 = std::time::Instant::now();
+        while LOG.lock().unwrap().iter().filter(|(_, e)| e["name"] == "ended").count() < ps.len()
+            && t0.elapsed() < Duration::from_secs(5)
+        {
+            std::thread::sleep(Duration::from_millis(2));
+        }
         let events = take_log();
         tw.emit(json!({"name": "reset", "run": run, "plans": ps.iter().map(|p| p.json()).collect::<Vec<_>>()}));
         for e in &events {
@@ -242,6 +265,17 @@ pub fn record(args: &Args) -> Summary {
             }).collect();
             s.case(PROP, interesting.then(|| format!("{}:{:?}:{sig}", p.key(), ended)),
                    || json!({"run": run, "task": i, "plan": p.json(), "ended": ended, "steps": steps}));
+            let pos_end = events.iter().position(|e| e["name"] == "ended" && e["i"] == i);
+            let pos_join = events.iter().position(|e| e["name"] == "join_ret" && e["i"] == i);
+            if let (Some(pe), Some(pj)) = (pos_end, pos_join) {
+                if pj < pe {
+                    s.violation(PROP, json!({"kind": "join-before-end", "plan": p.key(), "run": run, "seed": seed,
+                        "spawn": if p.c { "spawn_cancellable" } else { "spawn" }, "ended": ended,
+                        "why": format!("join() of task {i} returned (log position {pj}) while the task's future and the state it owns were still being dropped (ended '{}' at {pe})", ended.clone().unwrap_or_default()),
+                        "events": events}));
+                    continue;
+                }
+            }
             match (&ended, joined) {
                 (Some(kind), true) => {
                     let ok = allowed[p].iter().any(|(k, c)| k == kind && (*c == steps || (*c == sat && steps >= sat)));
